@@ -16,31 +16,31 @@ func H_C02_snapshot() {
 	n := vxrt.Param("n", 3)
 	f0 := vxrt.Text("stored", vxrt.Len("n0", vxrt.Param("n0lo", 0), vxrt.Param("n0hi", n)))
 	f1 := vxrt.Text("received", vxrt.Len("n1", vxrt.Param("n1lo", 0), vxrt.Param("n1hi", n)))
-	vxrt.Assume(vxrt.And(noCRAtEOL(f0), noCRAtEOL(f1)))
-	vxrt.Assume(vxrt.And(plainText(f0), plainText(f1)))
-	vxrt.Assume(differs(f0, f1))
+	vxrt.Assume(vxrt.And(vxNoCRAtEOL(f0), vxNoCRAtEOL(f1)))
+	vxrt.Assume(vxrt.And(vxPlainText(f0), vxPlainText(f1)))
+	vxrt.Assume(vxDiffers(f0, f1))
 	if vxrt.Param("ascii", 0) == 1 {
-		vxrt.Assume(vxrt.And(asciiOnly(f0), asciiOnly(f1)))
+		vxrt.Assume(vxrt.And(vxAsciiOnly(f0), vxAsciiOnly(f1)))
 	}
 	if vxrt.Param("known_K1", 1) == 1 {
-		vxrt.Assume(vxrt.Not(k1EscapeAlias(f0, f1)))
+		vxrt.Assume(vxrt.Not(vxK1EscapeAlias(f0, f1)))
 	}
 
-	t1 := newT("TestA")
+	t1 := vxNewT("TestA")
 	c.MatchSnapshot(t1, f0)
 	t1.end()
 	vxrt.Assert(len(t1.errors) == 0 && len(t1.logs) == 1, "C02:record")
 	stamp := vxrt.FSStamp()
-	before := dumpDir(dir)
+	before := vxDumpDir(dir)
 	erredBefore := testEvents.items[erred]
 
-	t2 := newT("TestA")
+	t2 := vxNewT("TestA")
 	c.MatchSnapshot(t2, f1)
 	t2.end()
 	vxrt.Assert(len(t2.errors) == 1, "C02:one-error")
 	vxrt.Assert(len(t2.logs) == 0, "C02:no-log")
 	vxrt.Assert(vxrt.FSStamp() == stamp, "C02:no-write")
-	vxrt.Assert(vxrt.Eq(dumpDir(dir), before), "C02:dir-unchanged")
+	vxrt.Assert(vxrt.Eq(vxDumpDir(dir), before), "C02:dir-unchanged")
 	vxrt.Assert(testEvents.items[erred] == erredBefore+1, "C02:erred-counter")
 }
 
@@ -52,20 +52,20 @@ func H_C02_struct() {
 	dir := vxrt.Dir()
 	c := WithConfig(Dir(dir), Filename("f"))
 	k := vxrt.Param("lines", 2)
-	f0 := structText("stored", k)
-	f1 := structText("received", k)
-	vxrt.Assume(differs(f0, f1))
+	f0 := vxStructText("stored", k)
+	f1 := vxStructText("received", k)
+	vxrt.Assume(vxDiffers(f0, f1))
 	if vxrt.Param("known_K1", 1) == 1 {
-		vxrt.Assume(vxrt.Not(k1EscapeAlias(f0, f1)))
+		vxrt.Assume(vxrt.Not(vxK1EscapeAlias(f0, f1)))
 	}
 	kind := vxrt.Choice("kind", 2)
-	t1 := newT("TestA")
-	doCall(c, t1, kind, f0)
+	t1 := vxNewT("TestA")
+	vxDoCall(c, t1, kind, f0)
 	t1.end()
 	vxrt.Assert(len(t1.errors) == 0 && len(t1.logs) == 1, "C02:record")
 	stamp := vxrt.FSStamp()
-	t2 := newT("TestA")
-	doCall(c, t2, kind, f1)
+	t2 := vxNewT("TestA")
+	vxDoCall(c, t2, kind, f1)
 	t2.end()
 	vxrt.Assert(len(t2.errors) == 1, "C02:one-error")
 	vxrt.Assert(len(t2.logs) == 0, "C02:no-log")
@@ -82,18 +82,18 @@ func H_C02_standalone() {
 	n := vxrt.Param("n", 3)
 	f0 := vxrt.Text("stored", vxrt.Len("n0", 0, n))
 	f1 := vxrt.Text("received", vxrt.Len("n1", 0, n))
-	vxrt.Assume(vxrt.And(plainText(f0), plainText(f1)))
-	vxrt.Assume(vxrt.And(asciiOnly(f0), asciiOnly(f1)))
-	vxrt.Assume(differs(f0, f1))
-	writeFile(dir+"/TestS_1.snap", f0)
+	vxrt.Assume(vxrt.And(vxPlainText(f0), vxPlainText(f1)))
+	vxrt.Assume(vxrt.And(vxAsciiOnly(f0), vxAsciiOnly(f1)))
+	vxrt.Assume(vxDiffers(f0, f1))
+	vxWriteFile(dir+"/TestS_1.snap", f0)
 	stamp := vxrt.FSStamp()
-	t := newT("TestS")
+	t := vxNewT("TestS")
 	c.MatchStandaloneSnapshot(t, f1)
 	t.end()
 	vxrt.Assert(len(t.errors) == 1, "C02:one-error")
 	vxrt.Assert(len(t.logs) == 0, "C02:no-log")
 	vxrt.Assert(vxrt.FSStamp() == stamp, "C02:no-write")
-	vxrt.Assert(vxrt.Eq(readFile(dir+"/TestS_1.snap"), f0), "C02:file-unchanged")
+	vxrt.Assert(vxrt.Eq(vxReadFile(dir+"/TestS_1.snap"), f0), "C02:file-unchanged")
 }
 
 // H_C02_json: a stored JSON entry that differs from the received document's stored form in any
@@ -115,13 +115,13 @@ func H_C02_json() {
 	path := dir + "/f.snap"
 	if standalone {
 		path = dir + "/f_1.snap.json"
-		writeFile(path, stored)
+		vxWriteFile(path, stored)
 	} else {
-		writeFile(path, frame("TestJ - 1", stored))
+		vxWriteFile(path, vxFrame("TestJ - 1", stored))
 	}
-	before := readFile(path)
+	before := vxReadFile(path)
 	stamp := vxrt.FSStamp()
-	t := newT("TestJ")
+	t := vxNewT("TestJ")
 	if standalone {
 		c.MatchStandaloneJSON(t, `{"a":1,"b":"x"}`)
 	} else {
@@ -130,7 +130,7 @@ func H_C02_json() {
 	t.end()
 	vxrt.Assert(len(t.errors) == 1, "C02:one-error")
 	vxrt.Assert(len(t.logs) == 0, "C02:no-log")
-	vxrt.Assert(vxrt.FSStamp() == stamp && readFile(path) == before, "C02:no-write")
+	vxrt.Assert(vxrt.FSStamp() == stamp && vxReadFile(path) == before, "C02:no-write")
 }
 
 // H_C02_ansi: texts that differ only inside terminal escape sequences (a red versus a green
@@ -147,9 +147,9 @@ func H_C02_ansi() {
 	if vxrt.Bool("more-lines") {
 		a, b = "head\n"+a+"\ntail", "head\n"+b+"\ntail"
 	}
-	writeFile(dir+"/f.snap", frame("TestA - 1", a))
+	vxWriteFile(dir+"/f.snap", vxFrame("TestA - 1", a))
 	stamp := vxrt.FSStamp()
-	t := newT("TestA")
+	t := vxNewT("TestA")
 	c.MatchSnapshot(t, b)
 	t.end()
 	vxrt.Assert(len(t.errors) == 1, "C02:one-error")
